@@ -942,6 +942,9 @@ class Interp:
         if isinstance(container, SList):
             from . import models
             return models.slist_contains(self, container, x)
+        from . import models as _m
+        if isinstance(container, _m.SMap):
+            return container.contains(self, x)
         if isinstance(container, (list, tuple, set, frozenset)) or isinstance(container, (dict,)) or \
                 type(container).__name__ in ('dict_keys', 'dict_values', 'mappingproxy'):
             if not contains_sym(x, 0) and not contains_sym(container, 1) and not isinstance(x, (tuple, list)):
@@ -1158,8 +1161,16 @@ class Interp:
                 if isinstance(kk, SChoice):
                     kk = self.resolve(kk)
                 if contains_sym(kk, 0):
-                    raise Unsupported('dict display with symbolic key')
-                d[kk] = self.eval(v, frame)
+                    # a symbolic key: the dict becomes a symbolic map (values not tracked)
+                    from . import models
+                    if not isinstance(d, models.SMap):
+                        d = models.smap_of_dict(self, d, kk)
+                    d.setitem(self, kk, self.eval(v, frame))
+                    continue
+                if isinstance(d, dict):
+                    d[kk] = self.eval(v, frame)
+                else:
+                    d.setitem(self, kk, self.eval(v, frame))
         return d
 
     def e_Subscript(self, node, frame):
@@ -1184,6 +1195,8 @@ class Interp:
             return models.sym_getitem(self, obj, idx)
         if isinstance(obj, Opaque):
             return self.reg.call_opaque(self, obj, '__getitem__', [idx], {})
+        if isinstance(obj, models.SMap):
+            return obj.getitem(self, idx)
         if isinstance(obj, (list, tuple)) and isinstance(idx, SInt):
             # case split over the concrete positions
             n = len(obj)
